@@ -45,13 +45,15 @@ type CLIProblem struct {
 	Message string
 }
 type VariantOutput struct {
-	Runs      []VariantRun
-	Module    []SrcFile // the generated module (paths relative to the module root)
-	Coq       string    `json:"-"`
-	Errors    []string
-	Notes     []string // differences between the runner's loaded results and the direct analysis
-	Stats     map[string]int
-	CoqRunner string `json:"-"`
+	Runs       []VariantRun
+	Module     []SrcFile // the generated module (paths relative to the module root)
+	Coq        string    `json:"-"`
+	Errors     []string
+	Notes      []string // differences between the runner's loaded results and the direct analysis
+	Stats      map[string]int
+	CoqRunner  string   `json:"-"`
+	CoqGraph   string   `json:"-"`
+	GraphMerge []string // description of the graph-merge cases
 }
 
 func genVariantModule(r *hx.Rand, npkgs int) []SrcFile {
@@ -151,8 +153,12 @@ func (b byExt) Len() int           { return len(b) }
 func (b byExt) Less(i, j int) bool { return false }
 func (b byExt) Swap(i, j int)      {}
 `})
+		// NOT gofmt'd: declared names in column 1 inside var/type/const declarations (an indented control next to each),
+		// used only from the in-package test
+		out = append(out, SrcFile{pk + "/d.go", "package " + pk + "\n\nvar (\ncol1Var int\n\tindentedVar int\n)\n\ntype (\ncol1Type struct{}\n\tindentedType struct{}\n)\n\nconst (\ncol1Const = 1\n\n\tindentedConst = 2\n)\n"})
 		if hasIn {
-			lineRefs = append(lineRefs, "_ = byName{}", "_ = &byPtr{}", "_ = outer{}")
+			lineRefs = append(lineRefs, "_ = byName{}", "_ = &byPtr{}", "_ = outer{}",
+				"_ = col1Var", "_ = indentedVar", "var _ col1Type", "var _ indentedType", "_ = col1Const", "_ = indentedConst")
 		}
 		if hasIn {
 			var t strings.Builder
@@ -188,7 +194,7 @@ func RunVariants(r *hx.Rand, dir, staticcheck string, npkgs int) *VariantOutput 
 	for _, f := range mod {
 		hx.WriteFile(filepath.Join(root, f.Name), f.Src)
 	}
-	var cases, rcases []string
+	var cases, rcases, gcases []string
 	for _, tests := range []bool{true, false} {
 		run := VariantRun{Tests: tests}
 		// --- per-variant results from the real runner
@@ -224,6 +230,9 @@ func RunVariants(r *hx.Rand, dir, staticcheck string, npkgs int) *VariantOutput 
 				continue
 			}
 			direct[dp.Name] = dp
+		}
+		if tests {
+			gcases = append(gcases, graphMergeCases(direct, root, vo)...)
 		}
 		var vres, dres []string
 		for _, res := range results {
@@ -319,6 +328,7 @@ func RunVariants(r *hx.Rand, dir, staticcheck string, npkgs int) *VariantOutput 
 		}
 	}
 	vo.Coq = "Definition casesV : list caseV := [\n" + strings.Join(cases, ";\n") + "\n].\n"
+	vo.CoqGraph = "Definition casesG : list caseV := [\n" + strings.Join(gcases, ";\n") + "\n].\n"
 	vo.CoqRunner = "Definition casesR : list caseV := [\n" + strings.Join(rcases, ";\n") + "\n].\n"
 	return vo
 }
@@ -330,4 +340,62 @@ func coqObjs(objs []unused.Object, root string) string {
 			CoqString(strings.TrimPrefix(o.DisplayPosition.Filename, root+"/")), o.DisplayPosition.Line, o.DisplayPosition.Column))
 	}
 	return "[" + strings.Join(parts, "; ") + "]"
+}
+
+// graphMergeCases merges the serialized graphs of the variants of each package with the REAL SerializedGraph.Merge
+// (what internal/cmd/unused does) in both orders and renders, per order, a caseV: the per-variant results of the direct
+// analysis against the objects Results() reports after the merge.
+func graphMergeCases(direct map[string]*Pkg, root string, vo *VariantOutput) []string {
+	groups := map[string][]*Pkg{}
+	var paths []string
+	for _, p := range direct {
+		if _, ok := groups[p.Path]; !ok {
+			paths = append(paths, p.Path)
+		}
+		groups[p.Path] = append(groups[p.Path], p)
+	}
+	sort.Strings(paths)
+	// Merge traces every node to stderr
+	saved := os.Stderr
+	if devnull, err := os.OpenFile(os.DevNull, os.O_WRONLY, 0); err == nil {
+		os.Stderr = devnull
+		defer func() { os.Stderr = saved; devnull.Close() }()
+	}
+	var out []string
+	for _, path := range paths {
+		g := groups[path]
+		if len(g) < 2 {
+			continue
+		}
+		sort.Slice(g, func(i, j int) bool { return g[i].Name < g[j].Name })
+		var vres []string
+		for _, p := range g {
+			vres = append(vres, fmt.Sprintf("mkRes %s true %s %s", CoqString(path), coqObjs(p.Result.Used, root), coqObjs(p.Result.Unused, root)))
+		}
+		for _, order := range [][]int{{0, 1}, {1, 0}} {
+			var sg unused.SerializedGraph
+			func() {
+				defer func() {
+					if r := recover(); r != nil {
+						vo.Errors = append(vo.Errors, fmt.Sprintf("SerializedGraph.Merge panicked on %s: %v", path, r))
+					}
+				}()
+				for _, i := range order {
+					if i < len(g) {
+						sg.Merge(g[i].FreshNodes())
+					}
+				}
+			}()
+			res := sg.Results()
+			var probs []string
+			for _, o := range res.Unused {
+				probs = append(probs, fmt.Sprintf("(%s, %d, %d, %s)", CoqString(strings.TrimPrefix(o.DisplayPosition.Filename, root+"/")),
+					o.DisplayPosition.Line, o.DisplayPosition.Column, CoqString(o.Kind+" "+o.Name+" is unused")))
+			}
+			out = append(out, fmt.Sprintf("mkV [%s]\n [%s]", strings.Join(vres, ";\n "), strings.Join(probs, ";\n ")))
+			vo.GraphMerge = append(vo.GraphMerge, fmt.Sprintf("%s: variants %s merged in order %v: %d unused after Merge+Results", path, g[0].Name+" | "+g[1].Name, order, len(res.Unused)))
+			vo.Stats["graph_merges"]++
+		}
+	}
+	return out
 }
